@@ -254,6 +254,17 @@ def subTokOf (t : Str) : SubTok := ⟨if canonB t then some (Parser.decimal t) e
 def splitParams (seq : Str) : List (List SubTok) :=
   (splitB 0x3B seq).map (fun p => (splitB 0x3A p).map subTokOf)
 
+/-- `strings.HasPrefix(s, "\x1b]8;")` -/
+def hasOsc8Prefix : Str → Bool
+  | 0x1B :: 0x5D :: 0x38 :: 0x3B :: _ => true
+  | _ => false
+
+/-- `strings.Cut(s, "\x1b\\")`: before and after the first ST; no ST: everything, and an empty rest. -/
+def cutST : Str → Str × Str
+  | [] => ([], [])
+  | [b] => ([b], [])
+  | b :: c :: r => if b = 0x1B ∧ c = 0x5C then ([], r) else ((cutST (c :: r)).1.cons b, (cutST (c :: r)).2)
+
 /-- The `for len(s) > 0` loop of `NewStyledString` (cells in order; `.ok []` where the Go code returns what it
     has so far). -/
 def nssLoop (cl : Str → Nat) (dflt : Style) : Nat → Style → Str → Except Panic (List (Cell Str))
@@ -268,6 +279,10 @@ def nssLoop (cl : Str → Nat) (dflt : Style) : Nat → Style → Str → Except
         match ssLoop ssCfg dflt (splitParams cut.1) st with
         | .error e => .error e
         | .ok st' => nssLoop cl dflt fuel st' cut.2
+    else if hasOsc8Prefix (c :: r) then
+      -- since the `fix:` for F119: an OSC 8 hyperlink is read (into the hyperlink fields, which this model leaves
+      -- out) instead of being split into graphemes; no cell, colours and attributes untouched
+      nssLoop cl dflt fuel st (cutST ((c :: r).drop 4)).2
     else
       let n := max 1 (cl (c :: r))
       match nssLoop cl dflt fuel st ((c :: r).drop n) with
